@@ -11,6 +11,7 @@ Output: one line per disagreement and a final SUMMARY line.
 import Driver.L1
 import Driver.L2
 import Driver.L3
+import Driver.L4
 import Std.Data.HashSet
 
 namespace Driver
@@ -38,6 +39,7 @@ def handle (req ans : String) : Verdict :=
   | "xr" :: _ => handleL2 req ans
   | "xs" :: _ => handleSeq req ans
   | "asm" :: _ => handleL3 req ans
+  | "cli" :: _ => handleL4 req ans
   | _ => handleL1 r (words ans)
 
 partial def loop (h : IO.FS.Stream) (out : IO.FS.Stream) (acc : Acc) : IO Acc := do
